@@ -19,6 +19,32 @@ CLAIMED = {
    note='Quantity part proved over the reals (binary64 underflow of an in-place conversion to 0.0 is outside the theorem and stated). The component-constructor clause (motor/gear parameter validation) is covered by the constructor model when claimed there; until then it is exercised only by the search oracle. Same trusted base as C05.',
    technique='Coq proof (structural induction over programs) over translator-regenerated model; bit-exact correspondence', ref='6 C19'),
 }
+
+SOLVER_NOTE = ('Theorems are about the hand-written Gallina model coq/Solver.v (generic in the arithmetic record, so they hold of the binary64 '
+  'instance too); the model is tied to gearpy by evaluating that instance with vm_compute on generated scenarios (chains of 2-8 elements, all units, '
+  'loads in time/position/speed, rule sets, stop conditions, run/continue/reset/new-solver schedules) and comparing every recorded value bit for bit; '
+  'the first differing field decides which properties a disagreement concerns. Modelled, not verified: exceptions raised mid-run leave no partial state '
+  '(only the exception class is compared); external load on the last element only; libm pow as an oracle table. SI-level ("up to rounding") readings of the '
+  'generic equations follow from the C06 theorems; rounding of the binary64 run is measured, not bounded.')
+CLAIMED.update({
+ 'C01': dict(text='Machine-checked invariant over every reachable state of the solver model (any chain, load function, rule set, schedule of run/continue/early stop/reset/new solver/duty-cycle change): at every recorded instant positions of adjacent elements are linked by ratio * downstream, and speeds and accelerations are either linked the same way or the instant is held and all are the zero constants.', note=SOLVER_NOTE,
+   technique='Coq proof (invariant by induction over operation sequences, generic in arithmetic); bit-exact vm_compute correspondence', ref='6 C01'),
+ 'C02': dict(text='Machine-checked for every reachable recorded instant: the motor driving torque is the motor law at the RECORDED speed and duty cycle, downstream driving torques are (driver * efficiency) * ratio, the last load torque is the load function at that instant\'s time and the recorded position/speed, upstream load torques are (follower / efficiency) / ratio, net = driving - load element by element.', note=SOLVER_NOTE,
+   technique='Coq proof (order-of-sub-steps inversion of the instant pipeline + induction over histories); bit-exact correspondence', ref='6 C02'),
+ 'C03': dict(text='Machine-checked: at every non-held reachable instant the last element\'s acceleration is net torque / equivalent inertia (the documented left-fold reduction); any two consecutive recorded instants are related by speed += previous acceleration * dt, position += advanced speed * dt, recorded speed = advanced speed unless the newer instant is held (then the zero constant); across continued runs, never spanning a reset.', note=SOLVER_NOTE,
+   technique='Coq proof (history invariant with ghost provenance, induction over operation sequences); bit-exact correspondence', ref='6 C03'),
+ 'C11': dict(text='Machine-checked: a run appends exactly the instants t0 + k*dt, k = 1..round(T/dt) (a prefix with a stop condition), t0 = 0 for a fresh simulation and the previous final instant in dt\'s unit for a continued one; over the reals consecutive instants are exactly dt apart, the last is t0 + n*dt and none exceeds it, and round of an exact integer quotient is that integer. Long decimal grids (thousands of steps) are compared with gearpy through run_grid.', note=SOLVER_NOTE + ' The theorem is about the count-based grid introduced by the fix commits for D1/D2; binary64 rounding of T/dt near a half-integer is outside the real-number statement and covered by the exact-rational search oracle.',
+   technique='Coq proof (loop/run specification, grid lemmas over R); bit-exact correspondence incl. long grids', ref='6 C11'),
+ 'C12': dict(text='Machine-checked: stepping over concatenated grids equals stepping over them in sequence, hence run(T1); continue(T2) with the same step equals run(T1+T2) as whole states whenever the grids concatenate; the first instant of a rerun after reset records the same observable values whenever position, speed and duty cycle agree (the left-over torque/acceleration/current and the cleared flag are proved irrelevant). Cross-unit continuation and the induction over later instants of a rerun are _partial (correspondence + exact metamorphic search); the full rerun statement is refuted by finding D4 (witness evaluated in the model).', note=SOLVER_NOTE,
+   technique='Coq proof (fold concatenation, state equality) + refuted witness by vm_compute; bit-exact correspondence on schedules; metamorphic search', ref='6 C12'),
+ 'C13': dict(text='Machine-checked for every reachable recorded instant: without a self-locking mating the flag is never set; duty cycle in force zero => held; held => all speeds and accelerations are the zero constants; not held => motor speed not below (above) zero for positive (negative) duty cycle in force; a release happens only when the previously recorded motor net torque has the strict sign of the duty cycle in force.', note=SOLVER_NOTE + ' "Duty cycle in force" is the motor attribute at the lock test (previous recorded value or the user-set one), the reading under which the property can hold. The self-locking flag of the powertrain is an input of this model; its derivation from friction and geometry is C10/C20.',
+   technique='Coq proof (case analysis of the lock decision + history invariant); bit-exact correspondence incl. the private flag', ref='6 C13'),
+ 'C14': dict(text='Machine-checked: arbitration returns the default 1 with no proposal, the saturated proposal with exactly one, ValueError with two or more; the duty cycle recorded at a controlled instant is that arbitration of the proposals at that instant; every recorded duty cycle of every reachable state passes the setter\'s range test -1 <= p <= 1 (so in binary64 it is not NaN).', note=SOLVER_NOTE + ' About the setter as repaired by the D10 fix commit.',
+   technique='Coq proof (case analysis + invariant over operation sequences); bit-exact correspondence on rule sets', ref='6 C14'),
+ 'C16': dict(text='Machine-checked by induction over the stepping loop with early exit: the comparison is false at every earlier computed instant, true at the last recorded one whenever fewer instants than the grid were recorded, nothing is recorded after it, and the first instant of a fresh simulation is not tested; the comparison is the generated quantity comparison of the sensor reading of the just-recorded instant with the threshold.', note=SOLVER_NOTE,
+   technique='Coq proof (induction over the grid fold with exit); bit-exact correspondence with stop conditions', ref='6 C16'),
+})
+
 PENDING = {}
 ALL = ['C%02d' % i for i in range(1, 21)]
 
